@@ -116,10 +116,10 @@ static void sdo_world_build(uint32_t nmt_operational)
     od_add(&b, CO_KEY(0x2021, 0, CO_OBJ_____R_), CO_TSTRING, (CO_DATA)&StrO5);
     od_add(&b, CO_KEY(0x2022, 0, CO_OBJ_____R_), CO_TSTRING, (CO_DATA)&StrO12);
     od_add(&b, CO_KEY(0x2023, 0, CO_OBJ_____R_), CO_TSTRING, (CO_DATA)&StrOV);
-    od_add(&b, CO_KEY(0x2030, 0, CO_OBJ_D___R_), CO_TUNSIGNED8,  (CO_DATA)1);
-    od_add(&b, CO_KEY(0x2030, 1, CO_OBJ_____RW), CO_TUNSIGNED32, (CO_DATA)&V32sub);
-    od_add(&b, CO_KEY(0x2040, 0, CO_OBJ_____RW), &UtRange, (CO_DATA)&V32range);
-    od_add(&b, CO_KEY(0x2041, 0, CO_OBJ_____RW), &UtUser,  (CO_DATA)&V32user);
+    od_add(&b, CO_KEY(0xA030, 0, CO_OBJ_D___R_), CO_TUNSIGNED8,  (CO_DATA)1);
+    od_add(&b, CO_KEY(0xA030, 1, CO_OBJ_____RW), CO_TUNSIGNED32, (CO_DATA)&V32sub);
+    od_add(&b, CO_KEY(0xA040, 0, CO_OBJ_____RW), &UtRange, (CO_DATA)&V32range);
+    od_add(&b, CO_KEY(0xA041, 0, CO_OBJ_____RW), &UtUser,  (CO_DATA)&V32user);
     sdo_def(O_U8,   0x2000, 0, 1, 1, K_BASIC, 1, &V8, 0, 0);
     sdo_def(O_U16,  0x2001, 0, 1, 1, K_BASIC, 2, &V16, 0, 0);
     sdo_def(O_U32,  0x2002, 0, 1, 1, K_BASIC, 4, &V32, 0, 0);
@@ -134,10 +134,10 @@ static void sdo_world_build(uint32_t nmt_operational)
     sdo_def(O_STR5, 0x2021, 0, 1, 0, K_STRING, 5, Str5, 0, 0);
     sdo_def(O_STR12,0x2022, 0, 1, 0, K_STRING, 12, Str12, 0, 0);
     sdo_def(O_STRV, 0x2023, 0, 1, 0, K_STRING, 9, StrV, 0, 0);
-    sdo_def(O_SUB0, 0x2030, 0, 1, 0, K_BASIC, 1, 0, 1, 0);
-    sdo_def(O_SUB1, 0x2030, 1, 1, 1, K_BASIC, 4, &V32sub, 0, 0);
-    sdo_def(O_RANGE,0x2040, 0, 1, 1, K_RANGE, 4, &V32range, 0, 0);
-    sdo_def(O_USER, 0x2041, 0, 1, 1, K_USER, 4, &V32user, 0, 0);
+    sdo_def(O_SUB0, 0xA030, 0, 1, 0, K_BASIC, 1, 0, 1, 0);
+    sdo_def(O_SUB1, 0xA030, 1, 1, 1, K_BASIC, 4, &V32sub, 0, 0);
+    sdo_def(O_RANGE,0xA040, 0, 1, 1, K_RANGE, 4, &V32range, 0, 0);
+    sdo_def(O_USER, 0xA041, 0, 1, 1, K_USER, 4, &V32user, 0, 0);
     spec.NodeId = SDO_NODEID; spec.Baudrate = 250000; spec.Dict = OD; spec.DictLen = 64; spec.EmcyCode = 0;
     spec.TmrMem = TMem; spec.TmrNum = 4; spec.TmrFreq = 1000; spec.Drv = &W_IfDrv; spec.SdoBuf = SdoBuf;
     CONodeInit(&Node, &spec);
